@@ -13,7 +13,9 @@ EXTENDS Integers, Sequences, FiniteSets, TLC, Json
 CONSTANTS MaxArgs, Words
 
 Classes == {"empty", "space", "word", "key", "seckey", "num", "neg", "i32max", "i32min", "u64max",
-            "u128big", "long", "nonascii", "semi", "newline", "db", "tok"}
+            "u128big", "long", "nonascii", "semi", "newline", "db", "tok",
+            \* very long AND non-ASCII (2-, 3- and 4-byte characters at every byte alignment)
+            "long_e0", "long_e1", "long_h0", "long_h1", "long_h2", "long_4"}
 
 Keywords(w) ==
   CASE w = "election" -> {"kw:win", "kw:candidate", "kw:alive"}
